@@ -297,7 +297,8 @@ def generate(ctx):
         yield 'surface_pressure', {'levels': levels.tolist(), 'geo': geo.tolist(), 'oro': oro.tolist(), 'g': g}
     cfgs = [((5, 3, 'gauss', 0.0), (9, 6, 'equiangular_with_poles', 0.0)),          # up-sampling, poles in the target
             ((6, 4, 'equiangular', 0.25), (4, 5, 'gauss', 0.0)),                    # offset source, target beyond both ends
-            ((8, 5, 'equiangular_with_poles', 0.0), (5, 3, 'equiangular', 0.5))]    # down-sampling
+            ((8, 5, 'equiangular_with_poles', 0.0), (5, 3, 'equiangular', 0.5)),    # down-sampling
+            ((6, 4, 'gauss', 0.6), (5, 4, 'equiangular', 0.0))]                     # nearest neighbour across the 0/2pi seam
     if not quick:
         cfgs += [((4, 48, 'gauss', 0.0), (7, 9, 'equiangular_with_poles', 0.1)), ((96, 3, 'gauss', 0.0), (10, 8, 'gauss', 0.0)),
                  ((7, 7, 'gauss', 0.3), (14, 15, 'equiangular', 0.0)), ((12, 6, 'equiangular', 0.0), (12, 6, 'equiangular_with_poles', 0.0))]
@@ -686,6 +687,13 @@ def r_wrapper_forms(ctx, a):
         for ij in np.ndindex(*xy):
             col = np.asarray(fld)[(slice(None),) + ij]; spv = sp[(0,) + ij]
             args = [P2, col, sig, [spv]] if cmd == 5 else [sig, col, P2, [spv]]
+            src2 = P2 if cmd == 5 else sig
+            tgt2 = sig * spv if cmd == 5 else P2 / spv
+            want = np.asarray(jitted('safe1')(jnp.asarray(tgt2), jnp.asarray(src2), jnp.asarray(col)))
+            got = r2[(slice(None),) + ij]
+            ctx.oracle(f'{direction}: a second coordinate object differing in one centre is honoured (no stale static configuration)',
+                       bool(np.array_equal(np.isnan(got), np.isnan(want)) and np.all(np.abs(np.nan_to_num(got) - np.nan_to_num(want)) <= 1e-9 * (np.abs(col).max() + 1) * 8)),
+                       {'wrapper': got.tolist(), 'routine': want.tolist()})
             cmp_opt(ctx, f'{direction} second static configuration (one centre changed)', r2[(slice(None),) + ij],
                     ctx.model.call(cmd, [nsrc, ndst], args), float(np.abs(col).max() + 1) * 8)
 
@@ -764,6 +772,9 @@ def r_regrid2(ctx, a):
     LA, LO = np.meshgrid(tlat, tlon); la_t, lo_t = LA.ravel(), LO.ravel()
     hav = lambda la1, lo1, la2, lo2: 2 * np.arcsin(np.sqrt(np.clip(np.sin((la2 - la1) / 2) ** 2 + np.cos(la1) * np.cos(la2) * np.sin((lo2 - lo1) / 2) ** 2, 0, 1)))
     D = hav(la_t[:, None], lo_t[:, None], la_s[None, :], lo_s[None, :])
+    flat = np.sqrt((la_t[:, None] - la_s[None, :]) ** 2 + (lo_t[:, None] - lo_s[None, :]) ** 2)
+    ctx.count('regrid2:targets whose great-circle neighbour differs from the flat (lat,lon) neighbour',
+              int(np.sum(D[np.arange(D.shape[0]), flat.argmin(axis=1)] > D.min(axis=1) + 1e-9)))
     ok_range = idx.shape == (T[0] * T[1],) and bool(np.all((idx >= 0) & (idx < S[0] * S[1])))
     ctx.oracle('nearest indices are valid source indices', ok_range, {'shape': list(idx.shape)})
     if ok_range:
